@@ -150,6 +150,29 @@ func (w *Worker) builtin(b *ssa.Builtin, args []Val, c *ssa.CallCommon) Val {
 	case "close":
 		w.chanClose(args[0])
 		return nil
+	case "SliceData":
+		sl := args[0].(Slice)
+		if sl.Obj == 0 {
+			return Ptr{}
+		}
+		return Ptr{sl.Obj, sl.Off}
+	case "StringData":
+		st := args[0].(Str)
+		return Ptr{st.Obj, st.Off}
+	case "String":
+		p := args[0].(Ptr)
+		n := int(w.concretize(args[1].(*Term), "unsafe.String length"))
+		if n == 0 {
+			return Str{}
+		}
+		return Str{p.Obj, p.Off, n}
+	case "Slice":
+		p := args[0].(Ptr)
+		n := int(w.concretize(args[1].(*Term), "unsafe.Slice length"))
+		if p.Obj == 0 {
+			return Slice{}
+		}
+		return Slice{p.Obj, p.Off, n, n, 1}
 	case "ssa:wrapnilchk":
 		if p, ok := args[0].(Ptr); ok && p.IsNil() {
 			w.goPanic("nil-deref", "value method called using nil pointer")
